@@ -7,3 +7,27 @@ claim('C11', 'Unbounded theorems (all index sets, counts, lengths, batches) abou
       'pointwise characterisation of count + and -, scalar * / //, batch sum and weighted mean, result length, rejection of unequal lengths; the model is run against the '
       'implementation on every pair of subsets for small lengths and on sampled inputs up to 2^32 in every operator form.',
       TB, 'Coq proof over executable model + differential correspondence (vm_compute)', 'DESIGN.md section 5 C11')
+M1TB = TB + (' M1 specifics: RDKit getters and coordinates are model inputs read by the harness; near-threshold inputs (within 2^-30 relative) are tagged by the '
+             'exact-arithmetic transcription harness/m1_spec.py and skipped in the tie; the mmh3 C library is compared with the Coq MurmurHash3 every run.')
+claim('C01', 'fp_rigid_invariant / fp_isometry_invariant_nostereo: for EVERY ring dictionary satisfying the ring laws (instances: Z, executed; R, the reals), every molecule, options, '
+      'fuel, orthogonal M (det 1; any orthogonal M when stereo is off) and translation, the model run - every level, every accepted shell, hence every fingerprint, folded or not, bit '
+      'or count, any mask - is Leibniz-equal; stereo codes proved equivariant branch by branch (dot/det identities). Tie: model vs Fingerprinter on gridded inputs, also with '
+      'the model input moved exactly; search: implementation under random SE(3)/O(3) motions.',
+      M1TB + ' The R instance depends on the standard real-number axioms (sig_forall_dec, functional_extensionality_dep); generic and Z statements are closed.',
+      'Coq proof (ring-generic equivariance) + differential correspondence + metamorphic search', 'DESIGN.md 5 C01, 5a')
+claim('C02', 'The Coq model (own MurmurHash3 with explicit 32-bit wrap, root-free geometry, shell/dedup/stop logic) is the executable specification; compared with the implementation on every '
+      "level's (identifier, centre, substructure) set, current_level and fingerprint queries (masks, bits, counts). Theorems: signed->unsigned spec, hash range/wrap/words, published "
+      'constants re-read from the source each run (seed, bond codes, precisions, 2^32), angle-bin tree = floor search over a table certified against real sin/cos by Interval, '
+      'dedup keeps the minimum identifier, mask exactness, termination (see evidence for the list actually discharged).',
+      M1TB + ' AngleTableCert uses the real-number axioms and Uint63 primitives (Interval); a DATIVE-bond molecule is a listed known finding.',
+      'Coq executable specification + theorems + differential correspondence', 'DESIGN.md 5 C02')
+claim('C04', 'history_independent_partial: for every ring dictionary, options and history of run() calls on one Fingerprinter in which no molecule object is edited in place, the last result '
+      'equals that of a fresh object (induction over the history with an identity-keyed cache invariant); the unrestricted statement is refuted with a witness that is the listed known '
+      'finding. Hash seeds, threads and processes are exercised (subprocesses under several PYTHONHASHSEED, thread pools with 1e-6 s switch interval, fork pool), not proved: partial.',
+      M1TB + ' Schedules are tested, not proved.', 'Coq proof (state machine invariant) + correspondence on histories + schedule exploration', 'DESIGN.md 5 C04')
+claim('C17', 'count_support_eq_bits / count_is_multiplicity / count_total for every model state, query and accepted fold length (fingerprinter part, closed proofs); conversions between kinds '
+      'for fingerprints and databases are proved/checked in the parts listed in the evidence. Tie: paired bit/count fingerprinters on the same input; implementation-level multiplicity check.',
+      M1TB, 'Coq proof + differential correspondence', 'DESIGN.md 5 C17')
+claim('C18', 'hydrogen_irrelevant, floating_excluded_eq_deleted, floating_coords_irrelevant, floating_included_contributes for every ring dictionary: the scene the iteration consults is equal, '
+      'hence every run and query. Tie on salts/hydrates/explicit-H molecules; search: displacing hydrogens and unbonded atoms, deleting unbonded atoms.',
+      M1TB, 'Coq proof (scene equality) + differential correspondence + metamorphic search', 'DESIGN.md 5 C18')
